@@ -84,8 +84,23 @@ def mkCM(E, sup):
     return CMf
 
 
+class Either:
+    """Oracle-side value for an outcome the documentation leaves open: any of the alternatives is accepted."""
+
+    def __init__(self, *alts):
+        self.alts = alts
+
+    def __repr__(self):
+        return "Either%r" % (self.alts,)
+
+
 def same(a, b, _depth=0):
     """Observable equality of two results (one per side)."""
+    if isinstance(b, Either):
+        for alt in b.alts:
+            if same(a, alt, _depth + 1):
+                return True
+        return False
     if _depth > 12:
         # self-referential containers: compared up to this depth
         return True
@@ -116,8 +131,12 @@ def same(a, b, _depth=0):
     if isinstance(a, dict) or isinstance(b, dict):
         if not (isinstance(a, dict) and isinstance(b, dict)) or len(a) != len(b):
             return False
-        for (k1, v1), (k2, v2) in zip(a.items(), b.items()):
-            if not (same(k1, k2, _depth + 1) and same(v1, v2, _depth + 1)):
+        # key-wise, not in insertion order: CrossHair's dict model does not keep the
+        # insertion order of symbolic keys, so order is not compared (stated in DESIGN)
+        for k1 in a:
+            if k1 not in b:
+                return False
+            if not same(a[k1], b[k1], _depth + 1):
                 return False
         return True
     if isinstance(a, (set, frozenset)) or isinstance(b, (set, frozenset)):
